@@ -392,7 +392,7 @@ func C11(tier string) int {
 	if tier == "thorough" {
 		E = []uint64{0, 1, 2, 3, 5}
 		depth = 4
-		budget = 30 * time.Minute
+		budget = 15 * time.Minute
 	}
 	if _, err := rig.DirkBin(); err != nil {
 		run.HarnessErr = err
